@@ -251,6 +251,10 @@ def evaluate__instance_expression(self: XPathToken, context: ta.ContextType = No
             if item_context.axis is None:
                 item_context.axis = 'self'
 
+            if self[1].symbol == 'attribute' and \
+                    not isinstance(item_context.item, AttributeNode):
+                return False  # the test would select the attributes of an element
+
             result = self[1].evaluate(item_context)
             if isinstance(result, list) and not result:
                 return isinstance(item_context.item, XPathFunction) and \
@@ -300,6 +304,9 @@ def evaluate__treat_expression(self: XPathToken, context: ta.ContextType = None)
             item_context.item = item
             if item_context.axis is None:
                 item_context.axis = 'self'
+
+            if self[1].symbol == 'attribute' and not isinstance(item, AttributeNode):
+                raise self.error('XPDY0050')  # the test would select the attributes of an element
 
             result = self[1].evaluate(item_context)
             if not result and isinstance(result, list):
